@@ -132,6 +132,10 @@ def catalogue():
                                         step("s2", [irq("a3")])]), {})
     C["env_flow"] = (wf("m", [step("s1", [code("c1", "$set_process_var(\"pv\", 7); $env.e1 = 5; return {y: 3};"), irq("a1")]), step("s2", [irq("a2")])],
                         env={"e0": 1}, outputs={"y": None}), {})
+    C["two_scope_vars"] = (wf("m", [step("s1", [irq("a1", _answer={"a": 5, "b": 6})], inputs={"b": 1}), step("s2", [irq("a2")])], inputs={"a": 1}), {})
+    C["hook_completed_wf"] = (wf("m", [step("s1", [irq("a1")])], setup=[{"uses": "acts.core.msg", "key": "done_wf", "on": "completed"}]), {})
+    C["hook_completed_act"] = (wf("m", [step("s1", [irq("a1", setup=[{"uses": "acts.core.msg", "key": "done_act", "on": "completed"}])])]), {})
+    C["params_template"] = (wf("m", [step("s1", [irq("a1", params={"v": "{{ v }}"}, _pre_actions=[["SetProcessVars", {"v": 2}]])]), step("s2", [irq("a2")])], inputs={"v": 1}), {})
     C["tail_if"] = (wf("m", [step("s1", [irq("a1")]), step("s2", [irq("a2")], **{"if": "c1"})]), {"c1": "$bool"})
     C["branch_tail_if"] = (wf("m", [step("s1", branches=[
         branch("b1", [step("s11", [irq("a1")]), step("s12", [irq("a2")], **{"if": "c2"})], **{"if": "c1"}),
